@@ -166,6 +166,11 @@ class Runner:
         if kf:
             self.known_hits.append((kf, small))
             return
+        decisive = [a for a, _, _ in (d2 or diffs) if a in prof.get("model_is_oracle", ())]
+        if not oracle_msgs and decisive:
+            # for this property the proven model is the oracle of these observables: the disagreeing input is a failing input
+            oracle_msgs = ["the real interpreter's %s differ(s) from the Lean model's on this input; the model satisfies the property by the theorems of Properties/%s*.lean and these observables are what the property fixes" % ("/".join(decisive), self.pid)]
+            payload["oracle"] = oracle_msgs
         if oracle_msgs:
             path = write_replay(self.pid, "violation", payload)
             self.violations.append(("oracle", path, oracle_msgs[0]))
